@@ -402,7 +402,13 @@ bool StepExtended(ScriptExecutionEnvironment& env, CScript::const_iterator& pc, 
             CScriptNum num1(vch1, env.fRequireMinimal, 5);
             CScriptNum num2(vch2, env.fRequireMinimal, 5);
             switch (env.opcode) {
-            case OP_MUL: num1 = num1 * num2; break;
+            case OP_MUL: {
+                // operands may have 5 bytes: the product can exceed int64
+                int64_t product;
+                if (__builtin_mul_overflow(num1.GetInt64(), num2.GetInt64(), &product)) return set_error(serror, SCRIPT_ERR_UNKNOWN_ERROR);
+                num1 = product;
+                break;
+            }
             case OP_DIV:
                 if (num2 == 0) return set_error(serror, SCRIPT_ERR_UNKNOWN_ERROR);
                 num1 = num1 / num2;
@@ -411,8 +417,27 @@ bool StepExtended(ScriptExecutionEnvironment& env, CScript::const_iterator& pc, 
                 if (num2 == 0) return set_error(serror, SCRIPT_ERR_UNKNOWN_ERROR);
                 num1 = num1 % num2;
                 break;
-            case OP_LSHIFT: num1 = num1 << num2; break;
-            case OP_RSHIFT: num1 = num1 >> num2; break;
+            case OP_LSHIFT: {
+                // a * 2^b; shifting by a negative or >= 64 amount, or out of int64, is undefined in C++
+                const int64_t a = num1.GetInt64(), b = num2.GetInt64();
+                if (b < 0) return set_error(serror, SCRIPT_ERR_UNKNOWN_ERROR);
+                if (b >= 64) {
+                    if (a != 0) return set_error(serror, SCRIPT_ERR_UNKNOWN_ERROR);
+                    num1 = 0;
+                } else {
+                    const int64_t limit = std::numeric_limits<int64_t>::max() >> b;
+                    if (a > limit || a < -limit - 1) return set_error(serror, SCRIPT_ERR_UNKNOWN_ERROR);
+                    num1 = static_cast<int64_t>(static_cast<uint64_t>(a) << b);
+                }
+                break;
+            }
+            case OP_RSHIFT: {
+                // floor(a / 2^b)
+                const int64_t a = num1.GetInt64(), b = num2.GetInt64();
+                if (b < 0) return set_error(serror, SCRIPT_ERR_UNKNOWN_ERROR);
+                num1 = b >= 64 ? (a < 0 ? -1 : 0) : (a >> b);
+                break;
+            }
             default: assert(0);
             }
             vch1 = num1.getvch();
